@@ -26,6 +26,7 @@ using namespace llvm;
 static bool EH = false;       // model exceptions
 static bool UBARITH = false;  // assert on nsw/nuw overflow
 static bool STOREHOOK = false; // instrument stores (C20)
+static bool NULLGUARD = false; // end a path with a failed assertion at the first access through a pointer into the null object
 static bool BYTELOOPS = false; // opt-in (IO byte-level jobs): i8 memcpy/memmove/memset that cannot be resolved to typed leaves -> inline byte loops instead of CBMC's array_replace/array_set models
 
 static std::map<Type*, std::string> tname;
@@ -908,6 +909,7 @@ struct FnEmitter {
     }
     if (auto *LI = dyn_cast<LoadInst>(&I)) {
       Type *T = I.getType();
+      if (NULLGUARD) O << ind << "if (__CPROVER_same_object((u8*)" << val(LI->getPointerOperand()) << ", (u8*)0)) { __CPROVER_assert(0, \"memory access through a null pointer [" << F.getName().str().substr(0, 70) << "]\"); __CPROVER_assume(0); }\n";
       if (T->isIntegerTy() && T->getIntegerBitWidth() >= 16 && isa<BitCastInst>(LI->getPointerOperand())) {
         std::vector<Leaf> lv; auto vf = [&](Value *v) { return val(v); };
         uint64_t N = DL->getTypeStoreSize(T);
@@ -923,6 +925,7 @@ struct FnEmitter {
       { std::string dl = directLvalue(LI->getPointerOperand(), I); if (!dl.empty()) { O << ind << lhs << dl << ";\n"; return; } }
       O << ind << lhs << "*" << val(LI->getPointerOperand()) << ";\n"; return; }
     if (auto *SI = dyn_cast<StoreInst>(&I)) {
+      if (NULLGUARD) O << ind << "if (__CPROVER_same_object((u8*)" << val(SI->getPointerOperand()) << ", (u8*)0)) { __CPROVER_assert(0, \"memory access through a null pointer [" << F.getName().str().substr(0, 70) << "]\"); __CPROVER_assume(0); }\n";
       if (STOREHOOK) O << ind << "v_store_hook((u8*)" << val(SI->getPointerOperand()) << ");\n";
       { Type *T = SI->getValueOperand()->getType();
         if (T->isIntegerTy() && T->getIntegerBitWidth() >= 16 && isa<BitCastInst>(SI->getPointerOperand())) {
@@ -1139,7 +1142,7 @@ int main(int argc, char **argv) {
   std::vector<std::string> dropCtor; // opt-in: static initialisers (llvm.global_ctors entries whose function name contains the substring) that are NOT run; what only they reach is removed (GlobalDCE)
   for (int i = 1; i < argc; ++i) {
     std::string a = argv[i];
-    if (a == "--eh") EH = true; else if (a == "--ub-arith") UBARITH = true; else if (a == "--store-hook") STOREHOOK = true; else if (a == "--byte-loops") BYTELOOPS = true;
+    if (a == "--eh") EH = true; else if (a == "--ub-arith") UBARITH = true; else if (a == "--store-hook") STOREHOOK = true; else if (a == "--null-guard") NULLGUARD = true; else if (a == "--byte-loops") BYTELOOPS = true;
     else if (a.rfind("--drop-ctor=", 0) == 0) dropCtor.push_back(a.substr(12));
     else if (a.rfind("--skip=", 0) == 0) skip.insert(a.substr(7));
     else in = a;
@@ -1273,6 +1276,16 @@ int main(int argc, char **argv) {
       else continue;
       stubbed.push_back(n.str());
     }
+  }
+  // C20: writable objects with static storage duration are shared between threads by construction
+  if (STOREHOOK) {
+    B << "u1 v_is_global(u8* p) {\n";
+    for (GlobalVariable &GV : M->globals()) {
+      if (GV.getName().startswith("llvm.") || GV.isConstant() || GV.getName().startswith("vh_")) continue;
+      if (GV.isDeclaration()) continue;
+      B << "  if (__CPROVER_same_object(p, (u8*)&" << gname(&GV) << ")) return 1;\n";
+    }
+    B << "  return 0;\n}\n";
   }
   // static initialisers (llvm.global_ctors) in priority order; harness entries call this first
   {
